@@ -40,7 +40,7 @@ def generate(ctx):
     return getattr(ctx, "gen_meta", [])
 
 
-def _run_parallel(ctx, first, count, procs, model):
+def _run_parallel(ctx, first, count, procs, model, budget):
     exe = ctx.bin_path("h_chainview")
     per = (count + procs - 1) // procs
     ps = []
@@ -49,7 +49,7 @@ def _run_parallel(ctx, first, count, procs, model):
         n = min(per, first + count - lo)
         if n <= 0:
             break
-        cmd = "%s run %d %d %s 2>/dev/null | grep -a '^R '" % (exe, lo, n, "model" if model else "")
+        cmd = "VERIF_DEADLINE_S=%d %s run %d %d %s 2>/dev/null | grep -a '^R '" % (budget, exe, lo, n, "model" if model else "")
         ps.append((lo, n, subprocess.Popen(["timeout", "2400", "bash", "-c", cmd], cwd=ctx.tmp, stdout=subprocess.PIPE, universal_newlines=True, errors="replace")))
     recs, missing = [], []
     for lo, n, p in ps:
@@ -173,7 +173,9 @@ def run(ctx):
     rng = ctx.rng.fork("c11-chainview")
     count = 260 if ctx.tier == "quick" else 8000
     first = 1 + rng.below(10 ** 9)
-    recs, missing = _run_parallel(ctx, first, count, min(core.NPROC, 14), True)
+    recs, missing = _run_parallel(ctx, first, count, min(core.NPROC, 14), True, 50 if ctx.tier == "quick" else 600)
+    ctx.coverage["chainview_skipped_for_time"] = sum(1 for r in recs if r.get("skipped"))
+    recs = [r for r in recs if not r.get("skipped")]
     ctx.timed("chainview_s", time.time() - t0)
     fails = []
     for s in missing[:3]:
